@@ -132,10 +132,24 @@ def real_eval(t):
     else:
         return res
 
-def real_approx_eval(t):
-    """Evaluate t to a Python numeral (int or float) value.
+def is_exact(x):
+    """Whether the Python number x is an exact rational (not a float)."""
+    return isinstance(x, (int, Fraction))
 
-    This is an imprecise (but more general) version of real_eval.
+def exact_div(x, y):
+    """Division that stays exact on rationals (int / int is a float in Python)."""
+    if is_exact(x) and is_exact(y):
+        return Fraction(x) / y
+    else:
+        return x / y
+
+def real_approx_eval(t):
+    """Evaluate t to a Python numeral (int, Fraction or float) value.
+
+    This is an imprecise (but more general) version of real_eval. The
+    result is exact (int or Fraction) as long as only rational operations
+    are involved, so that rounding cannot decide a comparison between
+    rational constants.
 
     """
     def rec(t):
@@ -158,20 +172,28 @@ def real_approx_eval(t):
             if denom == 0:
                 raise ConvException('real_approx_eval: divide by zero')
             else:
-                return rec(t.arg1) / denom
+                return exact_div(rec(t.arg1), denom)
         elif t.is_real_inverse():
             denom = rec(t.arg)
             if denom == 0:
                 raise ConvException('real_approx_eval: divide by zero')
             else:
-                return 1 / denom
+                return exact_div(1, denom)
         elif t.is_nat_power():
             return rec(t.arg1) ** nat.nat_eval(t.arg)
         elif t.is_real_power():
             x, p = rec(t.arg1), rec(t.arg)
+            if is_exact(x) and is_exact(p) and Fraction(p).denominator == 1 and x != 0:
+                return Fraction(x) ** Fraction(p).numerator
             return x ** p
         elif t.is_comb() and t.head == sqrt:
-            return math.sqrt(rec(t.arg))
+            x = rec(t.arg)
+            if is_exact(x) and x >= 0:
+                x = Fraction(x)
+                m, n = math.isqrt(x.numerator), math.isqrt(x.denominator)
+                if m * m == x.numerator and n * n == x.denominator:
+                    return Fraction(m, n)
+            return math.sqrt(x)
         elif t == pi:
             return math.pi
         elif t.is_comb() and t.head == sin:
@@ -210,6 +232,7 @@ class real_eval_macro(Macro):
     def eval(self, goal, prevs):
         assert len(prevs) == 0, "real_eval_macro: no conditions expected"
         assert goal.is_equals(), "real_eval_macro: goal must be an equality"
+        assert goal.lhs.get_type() == RealType, "real_eval_macro: goal must be an equality on real numbers"
         assert real_eval(goal.lhs) == real_eval(goal.rhs), "real_eval_macro: two sides are not equal"
 
         return Thm(goal)
@@ -877,6 +900,10 @@ class RealEqMacro(Macro):
     def eval(self, goal, prevs=None):
         if len(goal.get_vars()) != 0:
             raise ConvException
+        if not ((goal.is_equals() or goal.is_compares()) and goal.arg1.get_type() in (RealType, integer.IntType)):
+            # Only (in)equations between real numbers (also used for integer constants by
+            # smt/veriT/la_generic.py). On natural numbers subtraction is truncated.
+            raise ConvException
         try:
             if goal.is_equals():
                 if real_eval(goal.lhs) == real_eval(goal.rhs):
@@ -995,6 +1022,7 @@ class RealCompareMacro(Macro):
 
     def eval(self, goal, prevs=[]):
         assert goal.is_compares(), "real_compare_macro: Should be an inequality term"
+        assert goal.arg1.get_type() == RealType, "real_compare_macro: Should be an inequality between real numbers"
         lhs, rhs = real_eval(goal.arg1), real_eval(goal.arg)
         if goal.is_less():
             assert lhs < rhs, "%f !< %f" % (lhs, rhs)
